@@ -30,9 +30,22 @@ func baseScope(ctx context.Context) rel.Scope {
 }
 
 // withSandbox marks ctx as evaluating source that may only reach the scope and library it was
-// given (//eval.eval, //eval.evaluator, //eval.value).
+// given (//eval.eval, //eval.evaluator, //eval.value). The dynamic variables (`@{x}`) bound by the
+// caller are not visible to that source; the ones it binds itself are.
 func withSandbox(ctx context.Context) context.Context {
-	return context.WithValue(ctx, sandboxedKey, true)
+	return context.WithValue(dynScopeBarrier{ctx}, sandboxedKey, true)
+}
+
+// dynScopeBarrier is a context that hides every dynamic variable bound in its parent.
+type dynScopeBarrier struct {
+	context.Context
+}
+
+func (b dynScopeBarrier) Value(key interface{}) interface{} {
+	if _, isDynIdent := key.(rel.DynIdent); isDynIdent {
+		return nil
+	}
+	return b.Context.Value(key)
 }
 
 // isSandboxed reports whether the source being compiled runs inside a sandbox.
